@@ -268,8 +268,10 @@ def _run_steps(seg: Dict[str, Any], out: Dict[str, Any], root, mode, ops, dds, m
             if st.get("files"):
                 from . import materialize as _mat
                 _mat.write_tree(root, st["files"])
+            import types as _types
             for m in mods.values():
-                if st["var"] in m.__dict__:
+                # (a module may import a FUNCTION that carries the name another module gives to a variable)
+                if st["var"] in m.__dict__ and not isinstance(m.__dict__[st["var"]], (_types.FunctionType, type, _types.ModuleType)):
                     if st.get("inplace"):
                         exec(st["inplace"], m.__dict__)      # same object, mutated
                     else:
